@@ -39,13 +39,16 @@ THEOREMS = [
     'CC.C10_container',
     'CC.C10_unknown_node_zero_row',
     'CC.C10_columns_follow_sources',
+    'CC.C10_augmented_is_circuit',
+    'CC.C10_transfer',
+    'CC.C10_transfer_unique',
 ]
-OPEN_STATEMENTS = ['CC.C10_augmented_is_circuit_statement', 'CC.C10_transfer_statement']
+OPEN_STATEMENTS = []
 ASSUMPTIONS = [
     'numpy.linalg.inv is a parameter of the model: theorems hold for every pair of matrices with Ã·Ainv = 1 and (DQᵀ Ainv DQ)·S = 1; numpy\'s own inverses are checked against these equations on every case (exact residual ≤ 1e-9)',
     'binary64 arithmetic of numpy agrees with field arithmetic within 1e-9 relative on the dyadic, well-conditioned instances generated (cond < 1e6; others are counted as skipped)',
     'the hand-written model CC/Model/StateSpace.lean is tied to the code by the ss_model correspondence only (no translator part)',
-    'C10_realisation is pure matrix algebra from the certificate equations and the symmetry of Ã; that the augmented system is the circuit (C10_augmented_is_circuit) is an open statement, covered on every run by the exact transfer-function oracle',
+    'C10_transfer is proved for the model (RLC setting: distinct ids, no self-loops, capacitors open / inductors shorted in the w = 0 network, no lossy element); the exact transfer-function oracle checks the same statement on the implementation on every run',
 ]
 
 UNKNOWN_NODE = '?no-such-node?'
